@@ -698,6 +698,14 @@ pub fn c04_attacks(rng: &mut Rng, base: &LeafW, lc: &LeafCircuit) -> Vec<Case> {
             ));
         }
     }
+    // block hash that is non-zero but algebraically "close to zero" (defeats folded zero tests)
+    for _ in 0..3 {
+        let mut w = base.clone();
+        w.out1 = 0;
+        w.out2 = 0;
+        w.block_hash = refm::structured_delta(rng);
+        out.push(case("sentinel:structured-block-hash", "limbs from {+-1,+-2^48,+-2^32,+-2^24,..}", true, w, Expect::Unsat));
+    }
     // witnessed flag on a real statement with a garbage binding
     for v in [0u64, 2] {
         let mut w = base.clone();
